@@ -10,9 +10,12 @@ import (
 	"fmt"
 	"io"
 	"net/rpc"
+	"time"
 
 	plugin "github.com/hashicorp/go-plugin"
 	"google.golang.org/grpc"
+	"google.golang.org/grpc/credentials"
+	"google.golang.org/grpc/peer"
 	"google.golang.org/protobuf/types/known/wrapperspb"
 )
 
@@ -126,7 +129,18 @@ func (g *grpcImpl) call(ctx context.Context, in *wrapperspb.BytesValue) (*wrappe
 	if err := json.Unmarshal(in.Value, &r); err != nil {
 		return nil, err
 	}
-	out := g.h(r, nil, g.gb)
+	var out Resp
+	if r.Op == "peer-tls" {
+		// how this connection is secured, as the serving side sees it
+		out = Resp{S: "plaintext"}
+		if p, ok := peer.FromContext(ctx); ok && p.AuthInfo != nil {
+			if _, isTLS := p.AuthInfo.(credentials.TLSInfo); isTLS {
+				out = Resp{S: "tls"}
+			}
+		}
+	} else {
+		out = g.h(r, nil, g.gb)
+	}
 	b, _ := json.Marshal(out)
 	return &wrapperspb.BytesValue{Value: b}, nil
 }
@@ -267,4 +281,43 @@ func (r Resp) Error() error {
 		return fmt.Errorf("%s", r.Err)
 	}
 	return nil
+}
+
+// Bounded wraps a Caller so that no call made by a driver can block it for ever (a change under test can turn any call
+// into a hang): a call that does not return within d yields an error and is left behind.
+type boundedCaller struct {
+	Caller
+	d time.Duration
+}
+
+func Bounded(c Caller, d time.Duration) Caller { return &boundedCaller{Caller: c, d: d} }
+
+func (b *boundedCaller) Call(req Req) (Resp, error) {
+	type res struct {
+		r Resp
+		e error
+	}
+	ch := make(chan res, 1)
+	go func() { r, e := b.Caller.Call(req); ch <- res{r, e} }()
+	select {
+	case x := <-ch:
+		return x.r, x.e
+	case <-time.After(b.d):
+		return Resp{}, errors.New("harness: call did not return in time")
+	}
+}
+
+func (b *boundedCaller) Stream(n int) (int, error) {
+	type res struct {
+		n int
+		e error
+	}
+	ch := make(chan res, 1)
+	go func() { k, e := b.Caller.Stream(n); ch <- res{k, e} }()
+	select {
+	case x := <-ch:
+		return x.n, x.e
+	case <-time.After(b.d):
+		return 0, errors.New("harness: stream did not return in time")
+	}
 }
